@@ -18,7 +18,7 @@ _ids = [0]
 def _java(args, env=None, timeout=3600, deque=False, heap='2g'):
     tmp = os.path.join(WORK, 'tmp')
     os.makedirs(tmp, exist_ok=True)
-    cmd = ['java', '-XX:+UseParallelGC', '-Xmx' + heap, '-Djava.io.tmpdir=' + tmp]
+    cmd = ['java', '-XX:+UseParallelGC', '-Xss256m', '-Xmx' + heap, '-Djava.io.tmpdir=' + tmp]
     if deque:
         cmd.append('-Dtlc2.tool.queue.IStateQueue=StateDeque')
     cmd += ['-cp', JAR + ':' + CM, 'tlc2.TLC'] + args
